@@ -127,6 +127,30 @@ impl<'de> serde::Deserialize<'de> for LocaleServerFnOutputClient {
     }
 }
 
+/// Push a string as the content of a JS string literal that ends up inside a `<script>` element.
+#[cfg(all(feature = "dynamic_load", any(feature = "ssr", feature = "hydrate")))]
+fn push_js_str(buff: &mut String, value: &str) {
+    use std::fmt::Write;
+    for c in value.chars() {
+        match c {
+            '"' => buff.push_str("\\\""),
+            '\\' => buff.push_str("\\\\"),
+            '\n' => buff.push_str("\\n"),
+            '\r' => buff.push_str("\\r"),
+            '\t' => buff.push_str("\\t"),
+            // `<` is escaped so that neither `</script>` nor `<!--` can appear,
+            // U+2028 and U+2029 are line terminators in JS string literals.
+            '<' | '\u{2028}' | '\u{2029}' => {
+                let _ = write!(buff, "\\u{:04x}", c as u32);
+            }
+            c if (c as u32) < 0x20 => {
+                let _ = write!(buff, "\\u{:04x}", c as u32);
+            }
+            c => buff.push(c),
+        }
+    }
+}
+
 #[cfg(all(feature = "dynamic_load", feature = "ssr"))]
 mod register {
     use super::*;
@@ -179,7 +203,7 @@ mod register {
                         buff.push(',');
                     }
                     buff.push('\"');
-                    buff.push_str(value);
+                    push_js_str(&mut buff, value);
                     buff.push('\"');
                 }
                 buff.push_str("]}");
@@ -236,7 +260,7 @@ pub fn init_translations<L: Locale>() -> impl leptos::IntoView {
                 buff.push(',');
             }
             buff.push('\"');
-            buff.push_str(value);
+            push_js_str(&mut buff, value);
             buff.push('\"');
         }
         buff.push_str("]}");
